@@ -290,9 +290,14 @@ static uint8_t *mscratch;
 static void on_doc(vf_gen *g, void *u)
 {
     (void) u;
+    static uint8_t mask[4096];
     if (vf_deadline_passed()) { g->stop = true; return; }
     if (take()) { vf_count(CT_DOCS, 1); process_input(g->doc.bytes, g->doc.len, vf_shape(&g->doc), 0); }
+    if (g->doc.len > sizeof mask) return;
+    vf_mask_long_payloads(&g->doc, mask);
+    vf_mut_mask = mask;
     vf_mutants(g->doc.bytes, g->doc.len, mscratch, 4096, on_mut, &g->doc);
+    vf_mut_mask = NULL;
 }
 static void towers(void)
 {
@@ -342,7 +347,7 @@ static void worker(int w, int W, uint64_t start)
     static vf_gen g;
     for (int root = VK_OBJ; root <= VK_ARR; root++) {
         memset(&g, 0, sizeof g);
-        g.root_kind = root; g.max_tokens = N_DOC; g.classes = cls; g.nclasses = 5; g.names = vf_names_abc; g.nnames = 2; g.max_obj_depth = 0;
+        g.root_kind = root; g.max_tokens = N_DOC; g.classes = cls; g.nclasses = 5; g.names = vf_names_abL; g.nnames = 3; g.max_obj_depth = 0;   /* incl. a 128-byte name */
         g.cb = on_doc;
         vf_gen_run(&g);
     }
@@ -386,7 +391,7 @@ int main(int argc, char **argv)
     static char bound[900];
     snprintf(bound, sizeof bound,
              "inputs: every framed sequence of <= %d tokens over the %d-token hostile alphabet (max_depth 1,2,3) and of <= %d tokens over the %d-token core "
-             "alphabet (max_depth 2), object- and array-framed; every valid document with <= %d value tokens and ALL its one-deviation mutants under both init "
+             "alphabet (max_depth 2), object- and array-framed; every valid document with <= %d value tokens over names {a, b, a 128-byte name} and ALL its one-deviation mutants (interior bytes of the long name thinned out) under both init "
              "kinds; towers at and one past max_depth 1..3. Per input: fixpoint over ALL adaptive strategies built from next, 4 lookups, enter on a reported "
              "container, get_raw on a reported container, leave of the innermost entered container",
              L_HOSTILE, VF_NTOK_HOSTILE, L_CORE, VF_NTOK_CORE, N_DOC);
